@@ -201,6 +201,7 @@ func NewWorld(prop, backend string, cfg Cfg, obs Observers) (*World, error) {
 		return nil, fmt.Errorf("unknown backend %q", backend)
 	}
 	w.InitPending = cfg.InitVer > 0
+	w.WBaseLogged = true // (the first working tree starts from the empty store: its write log is complete, too)
 	w.newTree()
 	if _, err := w.Tree.Load(); err != nil {
 		return nil, fmt.Errorf("initial Load: %w", err)
